@@ -60,7 +60,8 @@ fn main() {
             }
         }
         Some("gen-corpus") if args.len() >= 3 => {
-            props::gen_corpus(&args[2]);
+            let seed: u64 = std::env::var("VERIF_SEED").ok().and_then(|s| s.trim().parse::<i128>().ok()).map(|v| v as u64).unwrap_or(0);
+            props::gen_corpus(&args[2], seed);
         }
         _ => {
             eprintln!("usage: vcheck check <Cxx> quick|thorough | replay <file> | list | gen-corpus <dir>");
